@@ -18,6 +18,9 @@ M = {
  'M13-lister-no-wait': ('lister.go', "	<-ticker.Done()\n	<-donech", "	<-ticker.Done()\n	_ = donech", ['C12']),
  'M14-list-bypasses-actor': ('cache.go', "func (c *_cache) List() ([]metav1.Object, error) {\n	resultch := make(chan []metav1.Object, 1)\n", "func (c *_cache) List() ([]metav1.Object, error) {\n	if len(c.items) >= 0 {\n		return c.doList(), nil\n	}\n	resultch := make(chan []metav1.Object, 1)\n", ['C15']),
  'M15-list-returns-shared-slice': ('cache.go', "	result := make([]metav1.Object, 0, len(c.items))\n	for _, obj := range c.items {", "	if c.listbuf == nil {\n		c.listbuf = map[int][]metav1.Object{}\n	}\n	result := c.listbuf[len(c.items)][:0]\n	defer func() { c.listbuf[len(c.items)] = result }()\n	for _, obj := range c.items {", ['C15']),
+ 'M23-join-ignores-source-delete': ('join/generated_service_pod.go', "		OnDelete(update).\n", "", ['C09']),
+ 'M24-join-monitor-not-closed': ('join/generated_rs_pod.go', "		monitor.Close()\n", "", ['C09']),
+ 'M25-join-filter-from-event-only': ('join/generated_deployment_pod.go', "		dst.Refilter(filterFn(objs...))\n	}\n\n	handler", "		dst.Refilter(filterFn(objs[:len(objs)/2+len(objs)%2]...))\n	}\n\n	handler", ['C09']),
  'M16-monitor-goroutine-callbacks': ('monitor.go', "				m.handler.OnUpdate(ev.Resource())", "				go m.handler.OnUpdate(ev.Resource())", ['C16']),
  'M17-blocking-subscription': ('subscription.go', "			select {\n			case s.outch <- evt:\n			default:\n				s.log.Warnf(\"event buffer overrun\")\n			}", "			s.outch <- evt", ['C10']),
  'M18-filter-sub-no-version': ('subscription_filter.go', "			case !ready:\n				continue\n			}", "			}", ['C08']),
